@@ -185,9 +185,28 @@ def norm_obs(o):
     return o
 
 
-def obs_equal(got, exp, strict_exc=False, dtype_matters=True):
+def _float_canon(bits, dt):
+    """bit pattern -> value under float equality (NaN canonical, -0.0 == +0.0)"""
+    import struct
+    if not isinstance(bits, int) or isinstance(bits, bool):
+        return bits
+    fmt = {"float16": ("<e", "<H"), "float32": ("<f", "<I"), "float64": ("<d", "<Q")}[dt]
+    x = struct.unpack(fmt[0], struct.pack(fmt[1], bits % (1 << (8 * struct.calcsize(fmt[1])))))[0]
+    if x != x:
+        return "nan"
+    return x + 0.0 if x != 0 else 0.0
+
+
+def obs_equal(got, exp, strict_exc=False, dtype_matters=True, float_eq=False):
     """does the observed outcome `got` satisfy the expected outcome `exp`?"""
     g, e = norm_obs(got), norm_obs(exp)
+    if float_eq and isinstance(g, dict) and isinstance(e, dict):
+        for o in (g, e):
+            if str(o.get("dtype", "")).startswith("float"):
+                if "flat" in o:
+                    o["flat"] = [_float_canon(v, o["dtype"]) for v in o["flat"]]
+                if "val" in o:
+                    o["val"] = _float_canon(o["val"], o["dtype"])
     if not isinstance(g, dict) or not isinstance(e, dict):
         return g == e
     if e.get("k") == "any":
@@ -197,7 +216,7 @@ def obs_equal(got, exp, strict_exc=False, dtype_matters=True):
     if g["k"] == "raise":
         return e["exc"] == "*" or g["exc"] == "*" or (g["exc"] == e["exc"]) or not strict_exc
     if g["k"] == "tuple":
-        return len(g["items"]) == len(e["items"]) and all(obs_equal(a, b, strict_exc, dtype_matters) for a, b in zip(g["items"], e["items"]))
+        return len(g["items"]) == len(e["items"]) and all(obs_equal(a, b, strict_exc, dtype_matters, float_eq) for a, b in zip(g["items"], e["items"]))
     if not dtype_matters or e.get("dtype") == "*" or g.get("dtype") == "*":
         g = {k: v for k, v in g.items() if k != "dtype"}
         e = {k: v for k, v in e.items() if k != "dtype"}
